@@ -21,3 +21,45 @@ def scripted(name, ka=0, kb=0):
 
 def scripted_args(ka=0, kb=0):
     return WORLD.body()
+
+
+# ---- values ------------------------------------------------------------------------------
+import hashlib as _hashlib
+
+
+class VerifError(Exception):
+    """A custom exception with several arguments (C05: type and args must survive)."""
+
+
+class VerifKeyError(KeyError):
+    pass
+
+
+EXC_TYPES = {"ValueError": ValueError, "VerifError": VerifError, "VerifKeyError": VerifKeyError,
+             "RuntimeError": RuntimeError, "TypeError": TypeError}
+
+
+def make_exception(spec):
+    """spec = [type name, [args...]]"""
+    return EXC_TYPES[spec[0]](*spec[1])
+
+
+def digest(value) -> str:
+    """Identity of a value for the trace: type-aware repr, hashed (TLC only compares it)."""
+    return _hashlib.sha1(_canon(value).encode("utf-8", "backslashreplace")).hexdigest()[:16]
+
+
+def exc_digest(ex) -> str:
+    return type(ex).__name__ + ":" + digest(list(getattr(ex, "args", ())))
+
+
+def _canon(v) -> str:
+    if isinstance(v, dict):
+        return "{" + ",".join(sorted(f"{_canon(k)}:{_canon(x)}" for k, x in v.items())) + "}"
+    if isinstance(v, (list, tuple)):
+        return ("[" if isinstance(v, list) else "(") + ",".join(_canon(x) for x in v) + "]"
+    if isinstance(v, float):
+        return "f" + repr(v)
+    if isinstance(v, bool) or v is None or isinstance(v, (int, str, bytes)):
+        return type(v).__name__[0] + repr(v)
+    return type(v).__name__ + repr(v)
